@@ -1,0 +1,5 @@
+//go:build !verif
+
+package decor
+
+func verifPoint(string, int) {}
